@@ -1282,6 +1282,105 @@ def _run(ctx):
     hist_case(6, 4, ["gm", "T", ("sd", gC2(2, 3)), "gm"], gd0=gI(2, 3, "F"), gr0=gI(2, 2, "F")); hist_case(4, 4, ["T", "gm", ("sr", g1("Discrete", 4))], gd0=g1("Continuous1D", 4), gr0=g1("Continuous1D", 4))
     hist_case(4, 3, ["T", ("sd", gS(4, 2))], kind="mb", gd0=g1("Continuous1D", 4), gr0=g1("Continuous1D", 3)); hist_case(4, 4, ["gm", "T", ("sr", g1("Discrete", 4)), ("sd", gS(4, 4))], kind="mb")
 
+    # ---- representation decisions of `_apply_func` against their transcription (`repr`, Model/C07_repr.lean): plain / CUQIarray inputs,
+    # is_par True / False, the model's own geometry tags and FOREIGN tags, subclass-keeping and subclass-stripping callables
+    from cuqi.array import CUQIarray as _CA
+    def repr_pool(n):
+        out_ = [g1("Continuous1D", n), g1("Discrete", n), g1("Default1D", n), gS(n, n), gM(n, m4, "Mapped-scale")]
+        for r_ in range(2, n):
+            if n % r_ == 0:
+                out_ += [gI(r_, n // r_, "C"), gI(r_, n // r_, "F"), gC2(r_, n // r_)]
+        return out_
+
+    def repr_case(gd_, gr_, gf_, keeps):
+        nD, nR = gd_.fun_dim, gr_.fun_dim
+        A0 = nrs.randint(-3, 4, size=(nR, nD)).astype(float)
+        with quiet():
+            G = [gd_.make(), gr_.make(), gf_.make()]
+            try:
+                geq = [[bool(G[a] == G[b]) for b in range(3)] for a in range(3)]
+            except Exception:
+                return
+            tt = []
+            for a in range(3):
+                other = G[(a + 1) % 3]
+                try:
+                    tt.append(isinstance(G[a].par2fun(_CA(np.ones(int(G[a].par_dim)), is_par=True, geometry=other)), _CA))
+                except Exception:
+                    tt.append(False)
+            fsD, fsR = gd_.fun_shape, gr_.fun_shape
+            if keeps:
+                M = LinearModel(lambda x: (A0 @ x.ravel()).reshape(fsR), lambda y: (A0.T @ y.ravel()).reshape(fsD), G[1], G[0])
+            else:
+                M = LinearModel(lambda x: (A0 @ np.asarray(x).ravel()).reshape(fsR), lambda y: (A0.T @ np.asarray(y).ravel()).reshape(fsD), G[1], G[0])
+        geqs = "".join("1" if geq[a][b] else "0" for a in range(3) for b in range(3)); tts = "".join("1" if t_ else "0" for t_ in tt)
+        specs = [gd_, gr_, gf_]
+        exact = gd_.exact and gr_.exact and gf_.exact
+        results = {}
+        for op, Cm, di, ri, meth in (("forward", A0, 0, 1, M.forward), ("adjoint", A0.T, 1, 0, M.adjoint)):
+            gdS = specs[di]
+            p_ = nrs.randint(-4, 5, size=gdS.par_dim).astype(float)
+            fv = (gdS.E @ p_)
+            reps = [("plain-par", "plain", 1, lambda: p_.copy(), p_), ("plain-fun", "plain", 0, lambda: fv.reshape(gdS.fun_shape).copy(), fv),
+                    ("own-par", f"cu:{di}:1", 1, lambda: _CA(p_.copy(), is_par=True, geometry=G[di]), p_),
+                    ("own-fun", f"cu:{di}:0", 0, lambda: _CA(fv.reshape(gdS.fun_shape).copy(), is_par=False, geometry=G[di]), fv)]
+            if gf_.par_dim == gdS.par_dim:
+                reps.append(("foreign-par", "cu:2:1", 1, lambda: _CA(p_.copy(), is_par=True, geometry=G[2]), p_))
+            if specs[ri].par_dim == gdS.par_dim:
+                reps.append(("other-side-par", f"cu:{ri}:1", 1, lambda: _CA(p_.copy(), is_par=True, geometry=G[ri]), p_))
+            for (rname, tagtok, ip, mk, vec) in reps:
+                desc = {"op": op, "representation": rname, "is_par": bool(ip), "callable_keeps_subclass": keeps, "dom": gd_.label, "rng": gr_.label, "foreign": gf_.label,
+                        "A": A0.tolist(), "input": np.asarray(vec).tolist(), "geometry_eq": geq, "par2fun_keeps_tag": tt}
+                try:
+                    with quiet():
+                        o_ = meth(mk(), is_par=bool(ip))
+                    impl = (np.array(_plain(o_).reshape(-1), copy=True), "cu" if type(o_) is _CA else "plain")
+                except Exception as e:
+                    impl = repr(e)[:100]
+                def h(out, desc=desc, impl=impl, op=op, rname=rname):
+                    ctx.case("lin-repr-decision", desc)
+                    hh = ctx.extra_cov.setdefault("repr_decisions", {})
+                    kk = f"{op}:{rname}:{'keeps' if keeps else 'strips'}"
+                    hh[kk] = hh.get(kk, 0) + 1
+                    key = f"tie:LinearModel:repr-decision:{op}:{rname}"
+                    if isinstance(impl, str):
+                        if rname in ("plain-par", "plain-fun", "own-par", "own-fun"):
+                            ctx.disagree(key, desc, out[:200], impl, "the implementation raises on an input representation the model evaluates")
+                            ctx.fail(key, desc, "forward / adjoint accept this representation of the input", impl, "raises")
+                        return
+                    vtxt, _, wtxt = out.partition(" ")
+                    mv = parse_L(vtxt).reshape(-1) if vtxt != "_" else np.zeros(0)
+                    if mv.shape != impl[0].shape or not same(mv.reshape(1, -1), impl[0].reshape(1, -1), exact) or wtxt != impl[1]:
+                        ctx.disagree(key, desc, out[:300], [impl[0].tolist(), impl[1]], "result of _apply_func differs from the transcribed representation decisions (_2fun / funvals / callable / _2par / parameters / wrapping)")
+                        results.setdefault(op, {})["tie-broken"] = True
+                    results.setdefault(op, {})[rname] = (impl[0], desc)
+                jobs.append((f"repr {qm(Cm)} {1 if keeps else 0} {gd_.token} {gr_.token} {gf_.token} {geqs} {tts} {di} {ri} {tagtok} {ip} {qv(vec)}", h))
+        # oracle (after the handlers of this case ran): the result must not depend on the representation of the input
+        def h_or(out):
+            asym = any(geq[a][b] != geq[b][a] for a in range(3) for b in range(3)) or (geq[0][1] and type(G[0]) is not type(G[1]))
+            for op, d_ in results.items():
+                ref = d_.get("plain-par")
+                for rname in ("plain-fun", "own-par", "own-fun"):
+                    if ref is None or rname not in d_:
+                        continue
+                    got = d_[rname][0]
+                    if got.shape != ref[0].shape or differ(got.reshape(1, -1), ref[0].reshape(1, -1), exact):
+                        k_ = (f"LinearModel:{op}-repr:geometry-eq-asymmetric:{gd_.label}>{gr_.label}" if asym else f"LinearModel:{op}-repr-decision:{rname}:{gd_.label}>{gr_.label}")
+                        if d_.get("tie-broken"):
+                            ctx.fail(f"tie:LinearModel:repr-decision:{op}:{rname}", d_[rname][1], ref[0].tolist(), got.tolist(), f"{op}(x) depends on the representation of x")
+                        ctx.fail(k_, d_[rname][1], ref[0].tolist(), got.tolist(), f"{op}(x) depends on the representation of x (plain parameters vs {rname})")
+        jobs.append(("geom id:1", h_or))
+
+    for n_ in ((4, 6) if not thorough else (4, 6, 8, 9)):
+        pool_ = repr_pool(n_)
+        for _ in range(5 if not thorough else 25):
+            gd_, gr_, gf_ = rng.choice(pool_), rng.choice(pool_), rng.choice(pool_)
+            repr_case(gd_, gr_, gf_, keeps=rng.random() < 0.6)
+    repr_case(GSpec("Default1D", "plain", lambda: _D1(4), "id:4"), gS(4, 2), g1("Continuous1D", 4), True)      # finding 9 inside the model
+    repr_case(gS(4, 2), GSpec("Default1D", "plain", lambda: _D1(4), "id:4"), g1("Discrete", 4), True)
+    repr_case(g1("Continuous1D", 4), gI(2, 2, "F"), gI(2, 2, "F"), True); repr_case(gI(2, 2, "C"), gI(2, 2, "F"), g1("Continuous1D", 4), False)
+    repr_case(gI(2, 3, "F"), gI(3, 2, "F"), gI(2, 3, "C"), True); repr_case(gM(4, m4, "Mapped-scale"), gS(4, 4), gC2(2, 2), True)
+
     # the class of inputs where geometry equality is asymmetric: `_DefaultGeometry1D.__eq__` accepts every Continuous1D
     # subclass with the same grid, so a default domain "equals" a StepExpansion range on the grid 0..n-1 and the
     # CUQIarray output is never projected: known finding `LinearModel:repr:geometry-eq-asymmetric:*`
